@@ -1351,6 +1351,9 @@ impl<'a> UserModel<'a> {
         column_end: i32,
         width: f64,
     ) -> Result<(), String> {
+        // Validate both ends of the range before changing anything
+        self.model.get_column_width(sheet, column_start)?;
+        self.model.get_column_width(sheet, column_end)?;
         let mut diff_list = Vec::new();
         for column in column_start..=column_end {
             let old_value = self.model.get_column_width(sheet, column)?;
@@ -1377,6 +1380,9 @@ impl<'a> UserModel<'a> {
         column_end: i32,
         hidden: bool,
     ) -> Result<(), String> {
+        // Validate both ends of the range before changing anything
+        self.model.is_column_hidden(sheet, column_start)?;
+        self.model.is_column_hidden(sheet, column_end)?;
         let mut diff_list = Vec::new();
         for column in column_start..=column_end {
             let old_value = self
@@ -1445,6 +1451,9 @@ impl<'a> UserModel<'a> {
         row_end: i32,
         hidden: bool,
     ) -> Result<(), String> {
+        // Validate both ends of the range before changing anything
+        self.model.is_row_hidden(sheet, row_start)?;
+        self.model.is_row_hidden(sheet, row_end)?;
         let mut diff_list = Vec::new();
         for row in row_start..=row_end {
             let old_value = self.model.workbook.worksheet(sheet)?.is_row_hidden(row)?;
@@ -1500,6 +1509,9 @@ impl<'a> UserModel<'a> {
         row_end: i32,
         height: f64,
     ) -> Result<(), String> {
+        // Validate both ends of the range before changing anything
+        self.model.get_row_height(sheet, row_start)?;
+        self.model.get_row_height(sheet, row_end)?;
         let mut diff_list = Vec::new();
         for row in row_start..=row_end {
             let old_value = self.model.get_row_height(sheet, row)?;
